@@ -27,7 +27,7 @@ func init() {
 			"and a scratch buffer from {nil, len0cap0, len0 big cap, len 8192 cap 16384 junk-filled (what gpfile passes), len>bound, len 1, too small, random}. The destination is a recording writer; " +
 			"the emitted bytes are decompressed by the same or a fresh instance from a file-like reader into an exactly sized poisoned buffer. " +
 			"Oracle: no error, reported n == bytes emitted, decompressed length and bytes == pristine copy of the input. " +
-			"The same case list runs in the cgo, CGO_ENABLED=0, goprobe_noliblz4, goprobe_nolibzstd builds and (cgo) under ASan and -race/checkptr. " +
+			"The same case list runs in the cgo, CGO_ENABLED=0, goprobe_noliblz4, goprobe_nolibzstd builds and (cgo) under ASan and with checkptr instrumentation. " +
 			"A call is non-trivial iff the encoder is not null and the scratch buffer has non-zero length or is too small for the bound, or the data is incompressible; distinct by (encoder, level, scratch class, data class, size bucket).",
 		Assumptions: []string{
 			"the reader handed to Decompress behaves like a file / goProbe's MemFile (a Read of k available bytes returns k bytes)",
@@ -35,16 +35,16 @@ func init() {
 			"system liblz4/libzstd are not ASan-instrumented; ASan only polices the Go<->C boundary buffers",
 		},
 		NumCases: func(tier, variant string) int {
-			n := map[string]int{"default": 240, "nocgo": 240, "nolz4": 160, "nozstd": 160, "asan": 80, "race": 80}[variant]
+			n := map[string]int{"default": 240, "nocgo": 240, "nolz4": 160, "nozstd": 160, "asan": 80, "checkptr": 80}[variant]
 			if tier == "thorough" {
 				n *= 20
 			}
 			return stor.DevCases(n)
 		},
 		Variants: func(tier string) []string {
-			return []string{"default", "nocgo", "nolz4", "nozstd", "asan", "race"}
+			return []string{"default", "nocgo", "nolz4", "nozstd", "asan", "checkptr"}
 		},
-		Run: run,
+		Run:         run,
 		CaseTimeout: 10 * time.Minute,
 		// single-threaded workloads: keep the Go runtime of the 16 parallel children from fighting over the cores
 		Env: func(tier, variant string) []string { return []string{"GOMAXPROCS=2"} },
@@ -185,7 +185,7 @@ func run(c *fw.Case) {
 		huge = true
 	}
 	maxSize := 0
-	if c.Variant == "asan" || c.Variant == "race" {
+	if c.Variant == "asan" || c.Variant == "checkptr" {
 		maxSize = 140000
 	}
 	// very high zstd levels on large inputs are slow; keep the case within budget by capping the
